@@ -349,8 +349,17 @@ func (db *MultiBucketBackend) ForceDeleteBucket(name string) error {
 func (db *MultiBucketBackend) BucketExists(name string) (exists bool, err error) {
 	db.lock.Lock()
 	defer db.lock.Unlock()
-	exists, err = afero.Exists(db.bucketFs, name)
-	return
+	return db.bucketExistsLocked(name)
+}
+
+// bucketExistsLocked reports whether name is a bucket: a valid bucket name that
+// exists directly under the bucket root. Names like "." or ".." resolve to
+// something that exists too, but they are not buckets.
+func (db *MultiBucketBackend) bucketExistsLocked(name string) (bool, error) {
+	if err := gofakes3.ValidateBucketName(name); err != nil {
+		return false, nil
+	}
+	return afero.Exists(db.bucketFs, name)
 }
 
 func (db *MultiBucketBackend) HeadObject(bucketName, objectName string) (*gofakes3.Object, error) {
@@ -362,7 +371,7 @@ func (db *MultiBucketBackend) HeadObject(bucketName, objectName string) (*gofake
 	defer db.lock.Unlock()
 
 	// Another slighly racy check:
-	exists, err := afero.Exists(db.bucketFs, bucketName)
+	exists, err := db.bucketExistsLocked(bucketName)
 	if err != nil {
 		return nil, err
 	} else if !exists {
@@ -405,7 +414,7 @@ func (db *MultiBucketBackend) GetObject(bucketName, objectName string, rangeRequ
 	defer db.lock.Unlock()
 
 	// Another slighly racy check:
-	exists, err := afero.Exists(db.bucketFs, bucketName)
+	exists, err := db.bucketExistsLocked(bucketName)
 	if err != nil {
 		return nil, err
 	} else if !exists {
@@ -492,7 +501,7 @@ func (db *MultiBucketBackend) PutObject(
 	defer db.lock.Unlock()
 
 	// Another slighly racy check:
-	exists, err := afero.Exists(db.bucketFs, bucketName)
+	exists, err := db.bucketExistsLocked(bucketName)
 	if err != nil {
 		return result, err
 	} else if !exists {
@@ -568,7 +577,7 @@ func (db *MultiBucketBackend) DeleteObject(bucketName, objectName string) (resul
 	defer db.lock.Unlock()
 
 	// Another slighly racy check:
-	exists, err := afero.Exists(db.bucketFs, bucketName)
+	exists, err := db.bucketExistsLocked(bucketName)
 	if err != nil {
 		return result, err
 	} else if !exists {
@@ -617,7 +626,7 @@ func (db *MultiBucketBackend) DeleteMulti(bucketName string, objects ...string) 
 	defer db.lock.Unlock()
 
 	// Another slighly racy check:
-	exists, err := afero.Exists(db.bucketFs, bucketName)
+	exists, err := db.bucketExistsLocked(bucketName)
 	if err != nil {
 		return result, err
 	} else if !exists {
